@@ -16,6 +16,8 @@ COARSE = [
     ('{[#X][#Y]}.{#X=[#A][#S][!@l],#Y=[!@l][#S][#B]}', '{[#X][#Y]}.{#X=[#A][#S][$@l],#Y=[$@l][#B]}', 1),
     ('{[#X][#Y][#Z]}.{#X=[#A][#S][!@l],#Y=[!@l][#S][#T][!@m],#Z=[!@m][#T]=[#B]}', '{[#X][#Y][#Z]}.{#X=[#A][$@l],#Y=[$@l][#S][#T]=[$@m],#Z=[$@m]=[#B]}', 2),
     ('{[#X][#Y][#Z]}.{#X=[#A][#S][!@l],#Y=[!@l][#S]([#B])[$@m],#Z=[$@m][#C]}', '{[#X][#Y][#Z]}.{#X=[#A][$@l],#Y=[$@l][#S]([#B])[$@m],#Z=[$@m][#C]}', 1),
+    # the shared bead resolved one level further, down to atoms (nothing is shared at the last level: 0 shared atoms there)
+    ('{[#X][#Y]}.{#X=[#A][#S][!@l],#Y=[!@l][#S][#B]}.{#A=OC[$],#S=[$]CC[$],#B=[$]N}', '{[#X][#Y]}.{#X=[#A][#S][$@l],#Y=[$@l][#B]}.{#A=OC[$],#S=[$]CC[$],#B=[$]N}', 0),
 ]
 
 
@@ -93,8 +95,9 @@ class C10(core.Prop):
 
     def execute(self, M, shape, inp):
         if shape.get('mode') == 'coarse':
-            return [core.guard(pl.run_resolver, M, inp['text'], last_all_atom=False),
-                    core.guard(pl.run_resolver, M, inp['disjoint'], last_all_atom=False)]
+            aa = COARSE[shape['idx']][0].count('}.{') == 2
+            return [core.guard(pl.run_resolver, M, inp['text'], last_all_atom=aa, how='all'),
+                    core.guard(pl.run_resolver, M, inp['disjoint'], last_all_atom=aa, how='all')]
         return core.guard(pl.run_resolver, M, inp['text'])
 
     def _oracle_coarse(self, shape, inp, obs):
@@ -112,8 +115,10 @@ class C10(core.Prop):
             return g
         g1, g2 = as_graph(over[1]['mol']), as_graph(disj[1]['mol'])
         cl.append(('same_molecule_as_disjoint_description',
-                   gg.iso_clause(g1, g2, lambda x, y: x.get('atomname') == y.get('atomname'), lambda x, y: gg.val_eq(x.get('order'), y.get('order')),
-                                 concrete_label=lambda d: d.get('atomname'))))
+                   gg.iso_clause(g1, g2, lambda x, y: (x.get('element'), x.get('atomname') if 'element' not in x else None) ==
+                                 (y.get('element'), y.get('atomname') if 'element' not in y else None),
+                                 lambda x, y: gg.val_eq(x.get('order'), y.get('order')),
+                                 concrete_label=lambda d: d.get('element') or d.get('atomname'))))
         nshared = COARSE[shape['idx']][2]
         nodes = over[1]['mol']['nodes']
         cl.append(('merged_atoms_belong_to_both_nodes', sum(1 for d in nodes.values() if len(set(d.get('fragid', []))) > 1) == nshared))
